@@ -153,6 +153,26 @@ func c06inputs(c *Ctx) []c06input {
 			}
 		}
 	}
+	// content-type-shaped texts (type "/" subtype parameters, with empty parts and blanks everywhere) under
+	// the labels whose value is a media type or a location
+	for _, ty := range []string{"", "a", "text", " "} {
+		for _, sub := range []string{"", " ", "\t", "b", "plain"} {
+			for _, par := range []string{"", ";", ";x", "; charset=utf-8", " ;v=1", ";;", "\t", ";charset=\"a/b\""} {
+				for _, tail := range []string{"", " ", "\t"} {
+					v := refcbor.NTstr(ty + "/" + sub + par + tail)
+					for _, l := range []int64{3, 16, 259, 260} {
+						u := refcbor.NMap(refcbor.NInt(l), v)
+						add("media-type-texts/unprotected", refcbor.Encode(u))
+						add("media-type-texts/protected", refcbor.Encode(refcbor.NBstr(refcbor.Encode(u))))
+						wm := &gen.WSign1{L: gen.WLayer{ProtMap: refcbor.NMap(refcbor.NInt(1), refcbor.NInt(-7), refcbor.NInt(l), v), Unprot: refcbor.NMap()}, Payload: []byte("p"), Sig: []byte{1, 2, 3}, Tagged: true}
+						add("media-type-texts/sign1", wm.Bytes())
+						wm2 := &gen.WSign1{L: gen.WLayer{ProtMap: refcbor.NMap(refcbor.NInt(1), refcbor.NInt(-7), refcbor.NInt(258), refcbor.NInt(-16), refcbor.NInt(l), v)}, Payload: make([]byte, 32), Sig: []byte{1, 2, 3}, Tagged: true}
+						add("media-type-texts/hash-envelope", wm2.Bytes())
+					}
+				}
+			}
+		}
+	}
 	// key grid
 	zoo := gen.KeyValueZoo(r)
 	rounds := c.N(14, 300)
